@@ -112,6 +112,13 @@ CLAIMS = {
    note="Python object identity vs equality of plugin callables is exercised by the object kinds above, not modelled; the dict-backed registries are the same machine without reset.",
    technique="Lean 4 proof (refinement of a list-based registry to a history-defined set specification, induction over histories) + history-driven oracle on the implementation",
    design="§5 C19"),
+ 'C13': dict(
+   text="Proved by symbolic execution of the builder's bytes on the VM model, for every 32-byte key, allowed-flags byte, witness-left stack, cache, limits, call counter and (arbitrary) crypto parameters, with no signature-extension plugin installed: running the single-signature lock ends with exactly the C02 specification's verdict of (sig, pk) on top of the remaining stack, or with exactly its error; "
+        "hence the lock alone authorizes a witness that left [sig] iff SigPure.checkSig = ok true - which with C02.4 gives completeness for every permitted flag and makes 'another key / other covered fields / non-permitted flag' exactly the C02 rejection conditions. "
+        "Tie: bytes of the single-sig (both layouts), multisig, script-hash, graftroot and graftap lock builders vs the model's builders; verdicts of every witness kind against every lock kind (compatibility table), witnesses by another key, changed covered / excluded sigfields, non-permitted flags, different committed / surrogate scripts, foreign-signed surrogates, one key supplying two distinct signatures to a 2-of-3, holder + outsider - judged on the implementation alone; every list also run on the model.",
+   note="the acceptance theorem is proved for the single-signature lock; the other pairs (layout 2, multisig, script-hash, graftroot, graftap) are tied by builder-bytes comparison and verdict matrices, not by a per-lock theorem.",
+   technique="Lean 4 proof (byte-level symbolic execution of the lock on the VM model, refinement to the C02 pure spec) + verdict-matrix oracle + differential correspondence of builder bytes and runs",
+   design="§5 C13"),
  'C10': dict(
    text="Lean theorems over all integers / all byte strings: bytesToInt (intToBytes n) = some n, decoding total exactly on non-empty strings, decoded range, "
         "top bit of the encoding = sign, and minimality of the encoding (no shorter string decodes to n). The model is tied to int_to_bytes / bytes_to_int / "
